@@ -96,12 +96,19 @@ func fromBytes(data []byte) (byte, mh.Multihash, error) {
 // It discards multihashes from the `StopProviding` operation if
 // `StartProviding` was called after `StopProviding` for the same multihash.
 //
-// Items that cannot be parsed are skipped; the returned error reports them.
+// The returned slice is indexed by operation type, followed by the multihashes
+// to `StopProviding` once all other operations are done (index lastOp-1) and
+// the multihashes to `StopProviding` before the `ProvideOnce` operations
+// (index lastOp): a `ProvideOnce` that was enqueued after a `StopProviding`
+// for the same multihash must not be cancelled by it.
+//
+// Items that cannot be parsed are skipped; the error reports them.
 func getOperations(dequeued [][]byte) ([][]mh.Multihash, error) {
 	stopProv := make(map[string]struct{})
+	earlyStopProv := make(map[string]struct{})
 	ops := [lastOp - 1][]mh.Multihash{} // don't store stop ops
-
 	var errs []error
+
 	for _, bs := range dequeued {
 		op, h, err := fromBytes(bs)
 		if err != nil {
@@ -111,9 +118,16 @@ func getOperations(dequeued [][]byte) ([][]mh.Multihash, error) {
 		}
 		switch op {
 		case provideOnceOp:
+			if _, ok := stopProv[string(h)]; ok {
+				// StopProviding was enqueued before this ProvideOnce: it has to be
+				// executed before it, otherwise it removes h from the provide queue.
+				delete(stopProv, string(h))
+				earlyStopProv[string(h)] = struct{}{}
+			}
 			ops[provideOnceOp] = append(ops[provideOnceOp], h)
 		case startProvidingOp, forceStartProvidingOp:
 			delete(stopProv, string(h))
+			delete(earlyStopProv, string(h))
 			ops[op] = append(ops[op], h)
 		case stopProvidingOp:
 			stopProv[string(h)] = struct{}{}
@@ -123,7 +137,11 @@ func getOperations(dequeued [][]byte) ([][]mh.Multihash, error) {
 	for hstr := range stopProv {
 		stopOps = append(stopOps, mh.Multihash(hstr))
 	}
-	return append(ops[:], stopOps), errors.Join(errs...)
+	earlyStopOps := make([]mh.Multihash, 0, len(earlyStopProv))
+	for hstr := range earlyStopProv {
+		earlyStopOps = append(earlyStopOps, mh.Multihash(hstr))
+	}
+	return append(ops[:], stopOps, earlyStopOps), errors.Join(errs...)
 }
 
 // executeOperation executes a provider operation on the underlying provider
@@ -170,7 +188,6 @@ func (s *SweepingProvider) worker() {
 		}
 		ops, err := getOperations(res)
 		if err != nil {
-			// The items that could be parsed are still executed.
 			s.logger.Warnf("BufferedSweepingProvider unable to parse dequeued item: %v", err)
 		}
 		// Execute the 4 kinds of queued provider operations on the underlying
@@ -181,6 +198,10 @@ func (s *SweepingProvider) worker() {
 		// enqueue the multihash a second time to the provide queue.
 		s.executeOperation(func(keys ...mh.Multihash) error { return s.Provider.StartProviding(true, keys...) }, ops[forceStartProvidingOp])
 		s.executeOperation(func(keys ...mh.Multihash) error { return s.Provider.StartProviding(false, keys...) }, ops[startProvidingOp])
+		// `StopProviding` enqueued before a `ProvideOnce` for the same multihash
+		// (and not overridden by a later `StartProviding`): apply it after the
+		// `StartProviding` ops it follows, but before `ProvideOnce`.
+		s.executeOperation(s.Provider.StopProviding, ops[lastOp])
 		s.executeOperation(s.Provider.ProvideOnce, ops[provideOnceOp])
 		// Process `StopProviding` last, so that multihashes that should have been
 		// provided, and then stopped provided in the same batch are provided only
